@@ -27,6 +27,8 @@ type Engine struct {
 	funcIdx map[string]*ssa.Function
 	mu       sync.Mutex
 	offCache map[*types.Struct][]int
+	pdomCache   map[*ssa.Function]map[*ssa.BasicBlock]*ssa.BasicBlock
+	regionCache map[*ssa.BasicBlock][]regionPath
 }
 
 type LoadConfig struct {
@@ -104,7 +106,8 @@ func Load(cfg LoadConfig) (*Engine, error) {
 	}
 	prog, _ := ssautil.AllPackages(pkgs, ssa.InstantiateGenerics)
 	prog.Build()
-	e := &Engine{Prog: prog, Pkgs: pkgs, Fset: pc.Fset, byPkg: map[string]*ssa.Package{}, funcIdx: map[string]*ssa.Function{}, offCache: map[*types.Struct][]int{}}
+	e := &Engine{Prog: prog, Pkgs: pkgs, Fset: pc.Fset, byPkg: map[string]*ssa.Package{}, funcIdx: map[string]*ssa.Function{}, offCache: map[*types.Struct][]int{},
+		pdomCache: map[*ssa.Function]map[*ssa.BasicBlock]*ssa.BasicBlock{}, regionCache: map[*ssa.BasicBlock][]regionPath{}}
 	e.Sizes = types.SizesFor("gc", "amd64")
 	if cfg.GOARCH != "" {
 		if s := types.SizesFor("gc", cfg.GOARCH); s != nil {
